@@ -96,6 +96,9 @@ type World struct {
 	OnCall func(name string, c ugo.Call)
 	// NoFaults disables fault injection (fault-free control arm).
 	NoFaults bool
+	// AbortOnFault: op() calls Abort on the root VM of the calling VM immediately before it raises a fault (a host
+	// that gives up on the script and then fails itself).
+	AbortOnFault bool
 	// CallErrs records what Invoke returned for each call().
 	CallErrs []string
 	argBufs  [][]ugo.Object
@@ -172,6 +175,13 @@ func (w *World) fnOp(c ugo.Call) (ugo.Object, error) {
 		return ugo.Int(id*1000 + occ), nil
 	}
 	w.Fired = append(w.Fired, FaultAt{id, occ, kind})
+	if w.AbortOnFault && c.VM() != nil {
+		root := ugo.VerifRootOf(c.VM())
+		if root == nil {
+			root = c.VM()
+		}
+		root.Abort()
+	}
 	if err := w.raise(kind, id, occ, true); err != nil {
 		return nil, err
 	}
